@@ -164,7 +164,7 @@ class _Closing:
         self.log.append("close")
 
 
-def run_impl(case):
+def _run_impl(case):
     import logging, warnings
     warnings.simplefilter("ignore")
     for n in ("tornado.access", "tornado.application", "tornado.general"):
@@ -267,6 +267,20 @@ def _parse_response(wire, method):
             return "body-length-mismatch:%d/%s" % (len(rest), cl[0])
         body = rest
     return {"code": code, "reason": m.group(2).decode("latin-1"), "headers": hdrs, "body": body.hex()}
+
+
+def run_impl(case):
+    """the runner's wall-clock watchdog also fires when the whole machine stalls (seen under load 40+: three trivial cases
+    'hung' at the same moment).  A case that was interrupted without having used CPU time is run again once; a case that
+    burnt CPU (a genuinely looping implementation) is reported as the Hang it is."""
+    import time
+    c0 = time.process_time()
+    try:
+        return _run_impl(case)
+    except BaseException as e:
+        if type(e).__name__ == "Hang" and time.process_time() - c0 < 10:
+            return _run_impl(case)
+        raise
 
 
 # ------------------------------------------------------------------------------------------- model / spec
